@@ -272,6 +272,10 @@ def gen_cases(tier, cap):
 
 
 def replay(case):
+    if case.get("engine") == "loomx":
+        from .. import loomx as _lx
+
+        return _lx.replay(case)
     if case.get("engine") == "rsx":
         return rsx.replay(case)
     common.prepare_stage()
